@@ -352,7 +352,22 @@ def standin_vendor_counts(tier, seed):
             fails.append(dict(args=args, failed="vendor-counts", clause=problem))
             if len(fails) >= 3:
                 break
-    return dict(function=F, case="vendor-counts", bound="3 fixed + seeded counts over 2-4 qubits (2-7 distinct outcomes) x 1-3 keys on arbitrary target subsets",
+    # the conversion of the service's little-endian outcome keys, for registers wider than a machine word
+    try:
+        from cirq_ionq import job as _job
+
+        for n in (1, 5, 31, 32, 33, 63, 64, 65, 66, 70, 100):
+            for _v in range(6):
+                cases += 1
+                value = rng.getrandbits(n) | (1 if _v == 0 else 0) | ((1 << (n - 1)) if _v == 1 else 0)
+                got = _job._little_endian_to_big(value, n)
+                want = sum(((value >> j_) & 1) << (n - 1 - j_) for j_ in range(n))
+                if got != want or not isinstance(got, int):
+                    fails.append(dict(args=dict(value=value, bit_count=n), failed="vendor-endianness", clause=f"_little_endian_to_big({value}, {n}) = {got!r}, the bit reversal is {want}"))
+                    break
+    except ImportError:
+        pass
+    return dict(function=F, case="vendor-counts", bound="3 fixed + seeded counts over 2-4 qubits (2-7 distinct outcomes) x 1-3 keys on arbitrary target subsets; endianness conversion of outcome keys on registers of 1..100 qubits",
                 cases=cases, distinct=cases, failures=len(fails), exhaustive=False, _fails=fails[:3])
 standin_vendor_counts.prop = "C18"
 
